@@ -260,6 +260,23 @@ Theorem meta_transfer_converges : forall sel (H : bytes -> bytes) (hdr : stat ->
   find_obs listing_name (view_of (ds_map r)) = None.
 Proof. exact meta_transfer_converges_proof. Qed.
 
+(* ... and on walked trees (C09's walk model for prior destination and source) every hypothesis
+   about the validators is discharged: what is left are the statement's own conditions - a
+   link-closed selector, nothing depending on the reserved name, identity_faithful *)
+Theorem meta_converges_on_walked_trees :
+  forall sel (H : bytes -> bytes) (hdr : stat -> bytes) d contA tA contB tB,
+  wf_tree tA -> ino_consistent tA -> inode_coherent tA ->
+  wf_tree tB -> ino_consistent tB -> inode_coherent tB ->
+  let A := walk_entries contA tA in
+  let B := walk_entries contB tB in
+  listing_dependents (walk tB) = false ->
+  link_closed sel (recv_stream (walk tB)) = true ->
+  AbsDest.identity_faithful d A (meta_proj sel B) ->
+  let r := receive_abs H hdr Fresh d A (meta_proj sel B) in
+  ds_err r = false /\ approx A (meta_proj sel B) (view_of (ds_map r)) /\
+  find_obs listing_name (view_of (ds_map r)) = None.
+Proof. exact meta_converges_on_walked_trees_proof. Qed.
+
 (* ---- REQ packets ----
    [req_ids files reqs]: asyncDataFunc looks the requested path up in r.files (None = "invalid
    file request").  With C02.reqs_exact: the ids requested are, in order, exactly the positions
@@ -342,6 +359,7 @@ Print Assumptions walked_source_accepts_iff.
 Print Assumptions registered_content.
 Print Assumptions projection_wf.
 Print Assumptions meta_transfer_converges.
+Print Assumptions meta_converges_on_walked_trees.
 Print Assumptions meta_req_ids.
 Print Assumptions listing_exact_rw.
 Print Assumptions rewrite_sim.
